@@ -4,6 +4,7 @@ import (
 	"fmt"
 	"strconv"
 	"strings"
+	"time"
 )
 
 // C17: SCAN / HSCAN / SSCAN full iterations under mutation.
@@ -79,6 +80,16 @@ func genScanPlan(seed uint64, thorough bool) *Plan {
 		// other types in the keyspace for TYPE filtering
 		setup = append(setup, cmdItem("RPUSH", "zl", "a"), cmdItem("HSET", "zh", "f", "v"), cmdItem("SADD", "zs", "m"))
 	}
+	typeBias := false
+	if kind == "scan" && g.chance(2) {
+		// keys of every type that are gone before the iteration starts but may
+		// still be stored: a deadline that has passed, UNLINK
+		typeBias = true
+		setup = append(setup, cmdItem("SET", "gk0", "v"), cmdItem("RPUSH", "gl0", "a"), cmdItem("HSET", "gh0", "f", "v"), cmdItem("SADD", "gs0", "m"),
+			cmdItem("PEXPIRE", "gk0", "20"), cmdItem("PEXPIRE", "gl0", "20"), cmdItem("PEXPIRE", "gh0", "20"), cmdItem("PEXPIRE", "gs0", "20"),
+			cmdItem("SET", "uk0", "v"), cmdItem("RPUSH", "ul0", "a"), cmdItem("HSET", "uh0", "f", "v"), cmdItem("SADD", "us0", "m"),
+			cmdItem("UNLINK", "uk0", "ul0"), cmdItem("UNLINK", "uh0", "us0"), Item{Op: "adv", N: int64(50 * time.Millisecond)})
+	}
 	setup = append(setup, Item{Op: "barrier", N: 1})
 	// scanner
 	scanArgs := func() []string {
@@ -98,7 +109,7 @@ func genScanPlan(seed uint64, thorough bool) *Plan {
 		if g.chance(3) {
 			opts = append(opts, []string{"MATCH", g.pick("*", "e*", "e1*", "e?", "e[0-4]*", "*7", "nomatch*", "e[^1]*", "", "e[0-9]", "e1[0-9]", "e\\[*", "e\\**", "e\\?3", "e\\\\*", "e[\\]]*", "e[*?]*", "e\\^6")})
 		}
-		if kind == "scan" && g.chance(4) {
+		if kind == "scan" && (g.chance(4) || typeBias && g.chance(2)) {
 			opts = append(opts, []string{"TYPE", g.pick("string", "list", "hash", "set", "zset")})
 		}
 		g.r.Shuffle(len(opts), func(i, j int) { opts[i], opts[j] = opts[j], opts[i] })
